@@ -199,3 +199,83 @@ func init() {
 			Expect: []string{"C13.R1@internal/packages/internal/packagerender.RenderObjectsWithFilter#map-iteration-helper:Keys", "C13.R5@"}},
 	)
 }
+
+// Round four (corpus G*): library forms of the sort comparators and of the validator's find loop.
+func init() {
+	const (
+		objects  = "internal/packages/internal/packagerender/objects.go"
+		ostmpl   = "internal/packages/internal/packagerender/objectsettemplate.go"
+		objvalid = "internal/packages/internal/packagevalidation/objectvalidation.go"
+	)
+	const ostImports = "import (\n\t\"sort\"\n"
+	const collectSort = "\tsort.Slice(entries, func(i, j int) bool {\n\t\treturn entries[i].Index < entries[j].Index\n\t})\n"
+	sortFunc := func(body string) string {
+		return "\tslices.SortFunc(entries, func(a, b phaseCollectorEntry) int {\n" + body + "\t})\n"
+	}
+	const objImports = "\t\"path/filepath\"\n\t\"sort\"\n\t\"strings\"\n"
+	const objImportsLib = "\t\"path/filepath\"\n\t\"slices\"\n\t\"strings\"\n"
+	const pathSort = "\tsort.Slice(paths, func(i, j int) bool {\n\t\tp1 := strings.ReplaceAll(paths[i], \"/\", \"\\x00\")\n\t\tp2 := strings.ReplaceAll(paths[j], \"/\", \"\\x00\")\n\t\treturn p1 < p2\n\t})\n"
+	const valImports = "\t\"fmt\"\n\n\t\"k8s.io/apimachinery/pkg/apis/meta/v1/unstructured\"\n"
+	const valImportsLib = "\t\"fmt\"\n\t\"slices\"\n\n\t\"k8s.io/apimachinery/pkg/apis/meta/v1/unstructured\"\n"
+	const findLoop = "\tfor _, phase := range manifest.Spec.Phases {\n\t\tif phase.Name == obj.GetAnnotations()[manifests.PackagePhaseAnnotation] {\n\t\t\treturn nil\n\t\t}\n\t}\n"
+	containsFunc := func(pred string) string {
+		return "\tif slices.ContainsFunc(manifest.Spec.Phases, func(phase manifests.PackageManifestPhase) bool {\n\t\treturn " + pred + "\n\t}) {\n\t\treturn nil\n\t}\n"
+	}
+	const orderR3 = "C13.R3@(internal/packages/internal/packagerender.phaseCollector).Collect#order-by-manifest-index"
+	addMutants(
+		Mutant{Prop: "C13", Name: "benign-collect-sortfunc-cmp-compare", File: ostmpl, Benign: true,
+			Old: collectSort, New: sortFunc("\t\treturn cmp.Compare(a.Index, b.Index)\n"),
+			More: []Edit{{File: ostmpl, Old: ostImports, New: "import (\n\t\"cmp\"\n\t\"slices\"\n"}}},
+		Mutant{Prop: "C13", Name: "benign-collect-sortfunc-if-chain", File: ostmpl, Benign: true,
+			Old: collectSort, New: sortFunc("\t\tif a.Index < b.Index {\n\t\t\treturn -1\n\t\t} else if a.Index > b.Index {\n\t\t\treturn 1\n\t\t}\n\t\treturn 0\n"),
+			More: []Edit{{File: ostmpl, Old: ostImports, New: "import (\n\t\"slices\"\n"}}},
+		Mutant{Prop: "C13", Name: "collect-sortfunc-by-name", File: ostmpl,
+			Why: "phases leave the collector ordered by name, not by manifest position",
+			Old: collectSort, New: sortFunc("\t\treturn cmp.Compare(a.Phase.Name, b.Phase.Name)\n"),
+			More:   []Edit{{File: ostmpl, Old: ostImports, New: "import (\n\t\"cmp\"\n\t\"slices\"\n"}},
+			Expect: []string{orderR3}},
+		Mutant{Prop: "C13", Name: "collect-sortfunc-descending", File: ostmpl,
+			Old: collectSort, New: sortFunc("\t\treturn cmp.Compare(b.Index, a.Index)\n"),
+			More:   []Edit{{File: ostmpl, Old: ostImports, New: "import (\n\t\"cmp\"\n\t\"slices\"\n"}},
+			Expect: []string{orderR3}},
+		Mutant{Prop: "C13", Name: "collect-sortfunc-equal-for-distinct-keys", File: ostmpl,
+			Why: "the three-way comparator answers 0 for a later phase before an earlier one: not an order, the unstable sort keeps map iteration order",
+			Old: collectSort, New: sortFunc("\t\tif a.Index < b.Index {\n\t\t\treturn -1\n\t\t}\n\t\treturn 0\n"),
+			More:   []Edit{{File: ostmpl, Old: ostImports, New: "import (\n\t\"slices\"\n"}},
+			Expect: []string{orderR3, "C13.R7@"}},
+		Mutant{Prop: "C13", Name: "collect-less-descending", File: ostmpl,
+			Old:    "\t\treturn entries[i].Index < entries[j].Index",
+			New:    "\t\treturn entries[i].Index > entries[j].Index",
+			Expect: []string{orderR3}},
+		Mutant{Prop: "C13", Name: "benign-collect-less-operands-swapped", File: ostmpl, Benign: true,
+			Old: "\t\treturn entries[i].Index < entries[j].Index",
+			New: "\t\treturn entries[j].Index > entries[i].Index"},
+		Mutant{Prop: "C13", Name: "benign-paths-sortfunc-strings-compare", File: objects, Benign: true,
+			Old:  pathSort,
+			New:  "\tslices.SortFunc(paths, func(a, b string) int {\n\t\tp1 := strings.ReplaceAll(a, \"/\", \"\\x00\")\n\t\tp2 := strings.ReplaceAll(b, \"/\", \"\\x00\")\n\t\treturn strings.Compare(p1, p2)\n\t})\n",
+			More: []Edit{{File: objects, Old: objImports, New: objImportsLib}}},
+		Mutant{Prop: "C13", Name: "paths-sortfunc-lossy-key", File: objects,
+			Why:    "paths that differ only in case compare equal and keep map iteration order",
+			Old:    pathSort,
+			New:    "\tslices.SortFunc(paths, func(a, b string) int {\n\t\treturn strings.Compare(strings.ToLower(a), strings.ToLower(b))\n\t})\n",
+			More:   []Edit{{File: objects, Old: objImports, New: objImportsLib}},
+			Expect: []string{"C13.R7@internal/packages/internal/packagerender.RenderObjectsWithFilter#sort-comparator"}},
+		Mutant{Prop: "C13", Name: "paths-sortfunc-zero-unless-less", File: objects,
+			Old:    pathSort,
+			New:    "\tslices.SortFunc(paths, func(a, b string) int {\n\t\tif a < b {\n\t\t\treturn -1\n\t\t}\n\t\treturn 0\n\t})\n",
+			More:   []Edit{{File: objects, Old: objImports, New: objImportsLib}},
+			Expect: []string{"C13.R7@internal/packages/internal/packagerender.RenderObjectsWithFilter#sort-comparator"}},
+		Mutant{Prop: "C13", Name: "benign-phase-validator-containsfunc", File: objvalid, Benign: true,
+			Old: findLoop, New: containsFunc("phase.Name == obj.GetAnnotations()[manifests.PackagePhaseAnnotation]"),
+			More: []Edit{{File: objvalid, Old: valImports, New: valImportsLib}}},
+		Mutant{Prop: "C13", Name: "phase-validator-containsfunc-any-named-phase", File: objvalid,
+			Why: "the predicate accepts any phase: an object annotated with an unknown phase passes validation and is dropped by the collector",
+			Old: findLoop, New: containsFunc("phase.Name != \"\""),
+			More:   []Edit{{File: objvalid, Old: valImports, New: valImportsLib}},
+			Expect: []string{"C13.R3@-#phase-validator-wired"}},
+		Mutant{Prop: "C13", Name: "phase-validator-containsfunc-or-class", File: objvalid,
+			Old: findLoop, New: containsFunc("phase.Name == obj.GetAnnotations()[manifests.PackagePhaseAnnotation] || len(phase.Class) > 0"),
+			More:   []Edit{{File: objvalid, Old: valImports, New: valImportsLib}},
+			Expect: []string{"C13.R3@-#phase-validator-wired"}},
+	)
+}
